@@ -14,6 +14,7 @@ import json
 import os
 import random
 import re
+import time
 
 import vlib
 
@@ -117,9 +118,13 @@ def resolve_cause(events, ei, detail):
         if gave and any(h["hostname"] == "" for h in mine[gave[0] + 1:]) and \
                 (ev["ev"] == "done" or addr == "registry-1.docker.io"):
             return "hub-hostname-reset"
-    if Tq == "docker.io" and detail.startswith("cred:") and defaults and not mine and not mined and \
-            ev["ev"] == "req" and not (ev["o"]["user"] or ev["o"]["token"] or ev["o"]["hasked"]):
-        return "hub-without-default"
+    if Tq == "docker.io" and defaults and not mine and not mined and ev["ev"] == "req":
+        # what was observed is the built-in default although a host default was given
+        if detail.startswith("cred:") and not (ev["o"]["user"] or ev["o"]["token"] or ev["o"]["hasked"]):
+            return "hub-without-default"
+        if detail.startswith("tls: TLS request") and ev["o"]["scheme"] == "https" and \
+                any(d["tls"] == "disabled" for d in defaults):
+            return "hub-without-default"
     if detail.startswith("cred: explicit credentials are shadowed") and ev["ev"] == "req":
         asked = ev["o"]["hasked"]
         hs = [i for i, h in enumerate(ents) if h["helper"] == asked]
@@ -432,7 +437,6 @@ def run(ctx):
     if thorough:
         gen("X04_gen_res_wide.cfg", "gen", "resolve-wide", simulate="num=400", **sim)
 
-    import time
     t0 = time.time()
     mc_runs = []
     for fut, label, expect in jobs:
